@@ -5,12 +5,12 @@
 //   c12_harness                 -> command stream on stdin, one canonical answer line per command:
 //     T                                      -> "T <rt>:<group>:<size> ..."  register traits of the 32 register types + constants
 //     Q arch id options extra nops op...     -> "Q <err> <inst_flags> <rm_feature> <rflags> <wflags> X <f>,<rm> O <f>,<phys>,<rmsz>,<clc>,<r>,<w>,<e> ... ## v=<0|1> s<i>=<0|1>..."
-//        arch: 0 = X86, 1 = X64; extra: 0 = none, 1 = {k1}; op := r<regtype>:<id> | m<size>:<base 0 abs,1 label,2 reg,100+id+100*seg>:<index 0 none,1 gp,11..13 vec> | i<value> | n | l
+//        arch: 0 = X86, 1 = X64; extra: 0 = none, 1 = {k1}; op := r<regtype>:<id> | m<size>:<base 0 abs,1 label,2 reg,100+id+100*seg>:<index 0 none,1 gp,11..13 vec, optionally + 100*register id> | i<value> | n | l
 //        part before " ## " is what the Coq model must reproduce; the part after it is implementation-only (validator verdict of
 //        the tuple, and of the tuple with operand i replaced by the memory operand the RW info claims possible).
 //     F arch id options extra nops op...     -> "F <err> <feature ids sorted...>"  (query_features)
 //     A id nops op...                        -> same answer format as Q for the AArch64 query_rw_info ("## v=" = a64 validator)
-//        op := v<arr>:<id> (arr in b8 b16 h4 h8 s2 s4 d1 d2) | e<b|h|s|d>:<id>:<index> (vector element) | x:<id> | w:<id>
+//        op := v<arr>:<id> (arr in b8 b16 h2 h4 h8 s2 s4 d1 d2) | s<b|h|s|d|q>:<id> (scalar view) | e<b|h|s|d>:<id>:<index> (vector element) | x:<id> | w:<id>
 //              | m:<baseid>:<mode 0 [xN], 1 [xN, xM] post-index, 2 [xN], #off post-index, 3 [xN, #off]! pre-index, 4 [xN, #off], 5 [xN, xM]>[:<off, default 16>] | i<value>
 //   c12_harness dumpa64         -> "AI <id> <name> <rw_info_index> <flags>", "AR <i> r0..r5" (inst_rw_info_table), "AK <name> <value>"
 #include <asmjit/core.h>
@@ -46,6 +46,22 @@ static void dump() {
   printf("K kIdVpternlogq %u\n", uint32_t(Inst::kIdVpternlogq));
   printf("K kCategoryGenericEx %u\n", uint32_t(InstDB::RWInfo::kCategoryGenericEx));
   printf("K kCategoryVmov8_1 %u\n", uint32_t(InstDB::RWInfo::kCategoryVmov8_1));
+#define KF(N) printf("K f_" #N " %u\n", uint32_t(CpuFeatures::X86::k##N));
+  KF(MMX) KF(MMX2) KF(SSE) KF(SSE2) KF(SSE4_1) KF(VPCLMULQDQ) KF(AVX) KF(PCLMULQDQ) KF(AVX512_F) KF(AVX512_VL) KF(AVX2) KF(AVX_IFMA)
+  KF(AVX_NE_CONVERT) KF(AVX_VNNI) KF(F16C) KF(FMA) KF(AVX512_BF16) KF(AVX512_BW) KF(AVX512_DQ) KF(AVX512_IFMA) KF(AVX512_VNNI)
+#undef KF
+#define KI(N) printf("K i_" #N " %u\n", uint32_t(Inst::kId##N));
+  KI(Pextrw) KI(Vbroadcastss) KI(Vbroadcastsd) KI(Vpbroadcastb) KI(Vpbroadcastd) KI(Vpbroadcastq) KI(Vpbroadcastw)
+  KI(Vcvtpd2dq) KI(Vcvtpd2ps) KI(Vcvttpd2dq)
+  KI(Vgatherdpd) KI(Vgatherdps) KI(Vgatherqpd) KI(Vgatherqps) KI(Vpgatherdd) KI(Vpgatherdq) KI(Vpgatherqd) KI(Vpgatherqq)
+  KI(Vpslldq) KI(Vpslld) KI(Vpsllq) KI(Vpsllw) KI(Vpsrad) KI(Vpsraq) KI(Vpsraw) KI(Vpsrld) KI(Vpsrldq) KI(Vpsrlq) KI(Vpsrlw)
+  KI(Vpermpd) KI(Vpermq)
+#undef KI
+  printf("K o_Evex %u\n", uint32_t(InstOptions::kX86_Evex));
+  printf("K o_AVX512Mask %u\n", uint32_t(InstOptions::kX86_AVX512Mask));
+  printf("K o_Vex %u\n", uint32_t(InstOptions::kX86_Vex));
+  printf("K o_Vex3 %u\n", uint32_t(InstOptions::kX86_Vex3));
+  printf("K kPreferEvex %u\n", uint32_t(InstDB::InstFlags::kPreferEvex));
   uint32_t maxA = 0, maxB = 0, maxAdd = 0;
   for (uint32_t i = 0; i < n; i++) {
     const InstDB::InstInfo& ii = InstDB::_inst_info_table[i];
@@ -105,13 +121,18 @@ static x86::Mem make_mem(Arch arch, uint32_t size, int base, int index) {
   bool x64 = arch == Arch::kX64;
   x86::Gp b = x64 ? x86::Gp(x86::rbx) : x86::Gp(x86::ebx);
   int seg = 0;
-  if (base >= 100) {  // 100 + gp id + 100 * segment id : a specific base register (native size) and segment override
+  uint32_t index_id = 0;
+  bool index_id_given = index >= 100;     // index = kind + 100 * register id (default ids: rsi/esi, vector 5)
+  if (index_id_given) { index_id = uint32_t(index / 100); index = index % 100; }
+  int32_t disp = 16;
+  if (base >= 100) {  // 100 + gp id + 100 * segment id : a specific base register (native size), segment override, no displacement
     b.set_id(uint32_t((base - 100) % 100));
     seg = (base - 100) / 100;
     base = 2;
+    disp = 0;
   }
   if (base == 2) {
-    if (index == 0) m = x86::ptr(b, 16);
+    if (index == 0) m = x86::ptr(b, disp);
     else if (index == 1) m = x86::ptr(b, x64 ? x86::Gp(x86::rsi) : x86::Gp(x86::esi), 0, 16);
     else if (index == 11) m = x86::ptr(b, x86::xmm5, 0, 16);
     else if (index == 12) m = x86::ptr(b, x86::ymm5, 0, 16);
@@ -130,6 +151,7 @@ static x86::Mem make_mem(Arch arch, uint32_t size, int base, int index) {
     else if (index == 12) m.set_index(x86::ymm5);
     else m.set_index(x86::zmm5);
   }
+  if (index_id_given && index != 0) m.set_index_id(index_id);
   m.set_size(size);
   if (seg) m.set_segment(x86::SReg(uint32_t(seg)));
   return m;
@@ -257,6 +279,8 @@ static bool parse_a64_op(const std::string& t, Operand_& out) {
     Vec v(Vec::make_v128(id));
     if (a == "b8") out = v.b8(); else if (a == "b16") out = v.b16(); else if (a == "h4") out = v.h4(); else if (a == "h8") out = v.h8();
     else if (a == "s2") out = v.s2(); else if (a == "s4") out = v.s4(); else if (a == "d2") out = v.d2();
+    else if (a == "d1") out = Vec::make_v64_with_element_type(VecElementType::kD, id);
+    else if (a == "h2") out = v.h2();
     else return false;
     return true;
   }
@@ -267,6 +291,18 @@ static bool parse_a64_op(const std::string& t, Operand_& out) {
     if (k == 'b') out = v.b(idx); else if (k == 'h') out = v.h(idx); else if (k == 's') out = v.s(idx); else if (k == 'd') out = v.d(idx);
     else return false;
     return true;
+  }
+  if (t[0] == 's' && t.size() > 2 && t[2] == ':') {   // scalar views sb sh ss sd sq
+    unsigned id;
+    if (sscanf(t.c_str() + 2, ":%u", &id) != 1) return false;
+    switch (t[1]) {
+      case 'b': out = Vec::make_b(id); return true;
+      case 'h': out = Vec::make_h(id); return true;
+      case 's': out = Vec::make_s(id); return true;
+      case 'd': out = Vec::make_d(id); return true;
+      case 'q': out = Vec::make_q(id); return true;
+      default: return false;
+    }
   }
   if (t[0] == 'x' || t[0] == 'w') {
     unsigned id;
